@@ -15,8 +15,29 @@ use crate::hal;
 use crate::mmio;
 use virtio_drivers::transport::Transport;
 
+thread_local! {
+    /// false: the notification oracles of C05; true: the same scripts judged by the platform ledger
+    /// (C04: every share is matched by exactly one unshare with the same range, direction and
+    /// device address, also when a driver hands buffers back to its queue in another order).
+    static LEDGER_MODE: std::cell::Cell<bool> = const { std::cell::Cell::new(false) };
+}
+
 fn viol(kind: &str, d: String) {
+    if LEDGER_MODE.with(|m| m.get()) {
+        return;
+    }
     report(Violation::new("C05", kind, d));
+}
+
+fn ledger_check(kind: Kind, op: &str) {
+    if !LEDGER_MODE.with(|m| m.get()) {
+        return;
+    }
+    for (k, d) in hal::with(|h| std::mem::take(&mut h.faults)) {
+        if k.starts_with("unshare") || k == "share-both" {
+            report(Violation::new("C04", format!("driver:{}", k), format!("{} driver, {}: {}", kind.name(), op, d)));
+        }
+    }
 }
 
 struct V {
@@ -95,6 +116,7 @@ impl TransportVisitor for V {
                 }
                 co.borrow_mut().livelock = None;
                 check(&co, kind, &queues, &sup, ev, &mut nb, $name);
+                ledger_check(kind, $name);
                 // The device polls the suppressed queues between operations as well.
                 for q in sup.iter() {
                     co.borrow_mut().service(*q);
@@ -185,11 +207,24 @@ impl TransportVisitor for V {
                 }
                 let tx = n.new_tx_buffer(10);
                 op!("send", n.send(tx));
+                // A burst: two buffers held at once, handed back oldest first, then used again.
                 fill(0, &frame);
                 fill(0, &frame);
-                op!("receive#2", n.receive().map(|r| rx = Some(r)));
-                if let Some(r) = rx.take() {
-                    op!("recycle_rx_buffer#2", n.recycle_rx_buffer(r));
+                let mut held = vec![];
+                op!("receive#2", n.receive().map(|r| held.push(r)));
+                op!("receive#3", n.receive().map(|r| held.push(r)));
+                while !held.is_empty() {
+                    let r = held.remove(0);
+                    op!("recycle_rx_buffer(oldest first)", n.recycle_rx_buffer(r));
+                }
+                for _ in 0..4 {
+                    fill(0, &frame);
+                }
+                for _ in 0..4 {
+                    op!("receive(after recycling)", n.receive().map(|r| held.push(r)));
+                }
+                while let Some(r) = held.pop() {
+                    op!("recycle_rx_buffer(newest first)", n.recycle_rx_buffer(r));
                 }
             }
             AnyDriver::Rng(r) => {
@@ -321,6 +356,15 @@ impl TransportVisitor for V {
         let _ = crate::util::catch(|| drop(d));
         cosim::uninstall();
     }
+}
+
+/// The same scripts judged by the platform ledger (C04).
+pub fn run_driver_ledger(kind: Kind, tkind: TKind) {
+    LEDGER_MODE.with(|m| m.set(true));
+    run_driver_notify(kind, tkind);
+    // Teardown included.
+    ledger_check(kind, "drop");
+    LEDGER_MODE.with(|m| m.set(false));
 }
 
 /// One execution: a driver, an explored set of suppressed queues, with or without event index.
